@@ -152,9 +152,56 @@ def searchFrom (s : SizeSite) (cands : List Int) : Nat → List Int → Option (
   | 0, acc => if s.violatedBy acc.reverse then some acc.reverse else none
   | n + 1, acc => cands.firstM (fun k => searchFrom s cands n (k :: acc))
 
-/-- a violating valuation with small values, if the boxes tried hold one -/
-def SizeSite.counterexample (s : SizeSite) : Option (List Int) :=
+/-- a violating valuation with small values, if the boxes tried hold one (exhaustive: only for few variables) -/
+def SizeSite.boxCounterexample (s : SizeSite) : Option (List Int) :=
   let boxes : List (List Int) := [[0, 1, 2], [0, 1, 2, 3, -1], [0, 1, 2, 3, 4, 5, -1, -2], [0, 1, 2, 3, 4, 5, 6, 7, 8, 10, 12, -1, -2, -3]]
   boxes.firstM (fun b => if b.length ^ s.nvars ≤ 3000000 then searchFrom s b s.nvars [] else none)
+
+/-- number of leading variables an expression / a condition needs: it can be evaluated once variables 0 … bound − 1 have values -/
+def SExpr.bound : SExpr → Nat
+  | .c _ => 0
+  | .v i => i + 1
+  | .add a b => max a.bound b.bound
+  | .sub a b => max a.bound b.bound
+  | .mul _ a => a.bound
+  | .neg a => a.bound
+
+def SCond.bound : SCond → Nat
+  | .tt => 0
+  | .le a b => max a.bound b.bound
+  | .lt a b => max a.bound b.bound
+  | .eq a b => max a.bound b.bound
+  | .ne a b => max a.bound b.bound
+  | .and p q => max p.bound q.bound
+  | .or p q => max p.bound q.bound
+
+/-- depth-first with pruning, for obligations with many variables (the extractor numbers the variables in the order the walk
+    defined them, so a fact `x' = x + 1` can be checked as soon as x' gets its value): a partial valuation is given up as soon as a
+    fact all of whose variables have values is false; `fuel` bounds the number of nodes visited -/
+def prunedFrom (s : SizeSite) (cands : List Int) : Nat → List Int → Nat → Option (List Int) × Nat
+  | _, _, 0 => (none, 0)
+  | 0, acc, fuel + 1 => (if s.violatedBy acc.reverse then some acc.reverse else none, fuel)
+  | n + 1, acc, fuel + 1 =>
+    cands.foldl (fun (r : Option (List Int) × Nat) k =>
+      match r with
+      | (some l, f) => (some l, f)
+      | (none, f) =>
+        let acc' := k :: acc
+        if s.conds.all (fun c => decide (c.bound > acc'.length) || c.check (valuation acc'.reverse)) then prunedFrom s cands n acc' f
+        else (none, f - 1)) (none, fuel)
+
+/-- the pruned search over three boxes; its answer is checked once more against the whole obligation -/
+def SizeSite.prunedCounterexample (s : SizeSite) : Option (List Int) :=
+  let boxes : List (List Int) := [[0, 1, 2, 3, -1], [0, 1, 2, 3, 4, 5, -1, -2], [0, 1, 2, 3, 4, 5, 6, 7, 8, 10, 12, -1, -2, -3]]
+  boxes.firstM (fun b =>
+    match (prunedFrom s b s.nvars [] 300000).1 with
+    | some l => if s.violatedBy l then some l else none
+    | none => none)
+
+/-- a violating valuation with small values: exhaustive boxes first, then the pruned search -/
+def SizeSite.counterexample (s : SizeSite) : Option (List Int) :=
+  match s.boxCounterexample with
+  | some l => some l
+  | none => s.prunedCounterexample
 
 end Csvq.SizeFacts
